@@ -253,6 +253,45 @@ TITLES = ["", "", "Alice", "alice buys", "Bob (admin)", "a.b", "x", "√ún√Ø c√∂d√
 NAME_PATTERNS = [".*", "^$", "^[A-Z]?", "x*", "^(Alice.*)?$", "Alice", "^alice", "b", r"\(admin\)", "a.b", r"a\.b", "√ún√Ø", "^S$", r"\+", "Z", r"\w", "^.?$"]
 
 
+# ------------------------------------------------------------------ file:LINE with scenarios that share keyword and title
+def impl_twins(case):
+    import tempfile, shutil
+    from behave.runner_util import parse_features
+    from behave.model_core import FileLocation
+    lines = ["Feature: F", "  about it"]
+    starts = []
+    for t in case["titles"]:
+        lines.append("")
+        starts.append(len(lines) + 1)
+        lines += ["  Scenario: %s" % t, "    Given a step", "    Then another"]
+    top = tempfile.mkdtemp(prefix="c10_twins_")
+    try:
+        path = os.path.join(top, "t.feature")
+        with open(path, "w") as fh:
+            fh.write("\n".join(lines) + "\n")
+        res = []
+        for line in range(0, len(lines) + 3):
+            with contextlib.redirect_stdout(io.StringIO()), contextlib.redirect_stderr(io.StringIO()):
+                feats = parse_features([FileLocation(path, line)])
+            res.append([line, [sc.line for f in feats for sc in f.walk_scenarios() if not sc.should_skip]])
+        return {"starts": starts, "selected": res, "nlines": len(lines)}
+    finally:
+        shutil.rmtree(top, ignore_errors=True)
+
+
+def oracle_twins(case, obs):
+    out = []
+    starts = obs["starts"]
+    for line, sel in obs["selected"]:
+        above = [s for s in starts if s <= line]
+        want = [above[-1]] if above else list(starts)          # a line above the first scenario addresses the feature: all of it
+        if sorted(sel) != want:
+            out.append(("t.feature:%d with scenario titles %s starting at lines %s selects the scenarios at lines %s, the entity at or above "
+                        "that line is %s" % (line, case["titles"], starts, sorted(sel), want), "line-selection-with-equal-titles"))
+            break
+    return out
+
+
 def impl_titles(case):
     from behave.configuration import Configuration
     from behave.runner import ModelRunner
@@ -445,4 +484,8 @@ def suites(tier, seed):
     tt = {"name": "titles", "cases": tcases, "impl": impl_titles, "oracle": oracle_titles,
           "nontrivial": lambda c, o: 0 < len(o["ran"]) < len(o["scenarios"]),
           "bound": "%d runs with --name patterns over scenario titles of every kind (none, metacharacters, unicode), plain and outline" % len(tcases)}
-    return [single, many, nm, tt]
+    wcases = [{"titles": t} for t in (["Login", "Logout", "Login", "Other"], ["Same", "Same"], ["A", "B", "A", "B", "A"], ["", ""], ["One", "Two", "Three"])]
+    tw = {"name": "twins", "cases": wcases, "impl": impl_twins, "oracle": oracle_twins, "exhaustive": True,
+          "nontrivial": lambda c, o: True,
+          "bound": "%d features whose scenarios share keyword and title, every line from 0 to past the end (oracle only)" % len(wcases)}
+    return [single, many, nm, tt, tw]
